@@ -22,7 +22,9 @@ RULE = ("(a) pairs of (old file database from one generated GFF3/GTF annotation,
         "iter_by_parent_childs, schema, directives) with generated arguments, every generator drained; non-trivial = call "
         "sequence touching >= 6 distinct methods / pair with disjoint ids; distinct by (annotation, call sequence) / (old, new, force)")
 REQUIRED = ["no-force attempts refused", "force imports compared with solitary import", "read-style calls made",
-            "statements traced on gffutils' connection", "authorizer events seen", "files re-dumped after read sequences"]
+            "statements traced on gffutils' connection", "authorizer events seen", "files re-dumped after read sequences",
+            "old databases with un-checkpointed WAL frames", "attempts on a database locked by another connection",
+            "GTF databases built without inference", "look-ups of ids known only as relation parents"]
 ASSUMPTIONS = [
     "'content untouched' is judged on the independent content dump (byte identity of the file is recorded as a monitor, not demanded)",
     "exceptions raised by a read-style call (e.g. bed12 on non-spanning blocks) are not this property's concern; the call still must not write",
@@ -81,7 +83,33 @@ def pair(ctx, case):
             c0.commit()
             c0.close()
             ctx.mon("old databases without ANALYZE statistics")
+        locker = None
+        if case.get("old_in_wal_mode"):
+            # the leftovers of a writer that died in WAL mode: committed frames that live only in the -wal file
+            import shutil
+            live = gffutils.FeatureDB(dbfn)
+            live.set_pragmas({"journal_mode": "WAL"})
+            live.update("chrW\tsrc\tgene\t5\t50\t.\t+\t.\tID=only_in_wal_%d\n" % case["old_seed"], from_string=True, make_backup=False)
+            crashed = ctx.tmp(".crashed.db")
+            for suf in ("", "-wal", "-shm"):
+                if os.path.exists(dbfn + suf):
+                    shutil.copy(dbfn + suf, crashed + suf)
+            live.conn.close()
+            for suf in ("", "-wal", "-shm", ".bak"):
+                if os.path.exists(dbfn + suf):
+                    os.unlink(dbfn + suf)
+            for suf in ("", "-wal", "-shm"):
+                if os.path.exists(crashed + suf):
+                    os.replace(crashed + suf, dbfn + suf)
+            if os.path.exists(dbfn + "-wal") and os.path.getsize(dbfn + "-wal") > 0:
+                ctx.mon("old databases with un-checkpointed WAL frames")
         before, h0 = dbdump.dump(dbfn), sha(dbfn)
+        if case.get("locked"):
+            # another connection holds the exclusive lock while the import is attempted (takes sqlite3's busy timeout)
+            locker = sqltrace.ORIG_CONNECT(dbfn, timeout=0.1)
+            locker.isolation_level = None
+            locker.execute("BEGIN EXCLUSIVE")
+            ctx.mon("attempts on a database locked by another connection")
         # without force: must raise, content untouched
         raised = None
         try:
@@ -96,6 +124,12 @@ def pair(ctx, case):
         del raised
         import gc
         gc.collect()
+        if locker is not None:
+            locker.execute("ROLLBACK")
+            locker.close()
+        if not os.path.exists(dbfn):
+            ctx.violation(case, {"why": "a refused create_db removed the existing database file"})
+            return
         after = dbdump.dump(dbfn)
         ctx.mon("no-force attempts refused")
         ctx.mon("file bytes identical after refused import" if sha(dbfn) == h0 else "file bytes changed after refused import (content equal)")
@@ -103,7 +137,7 @@ def pair(ctx, case):
         if d:
             ctx.violation(case, {"why": "a refused create_db changed the existing database", "diff": d})
             return
-        if case["force"]:
+        if case["force"] and not case.get("locked"):
             try:
                 db = gffutils.create_db(new_text, dbfn, from_string=True, force=True)
                 db.conn.close()
@@ -122,7 +156,7 @@ def pair(ctx, case):
             if (new_ids - solo_ids) & old_ids:
                 ctx.violation(case, {"why": "features of the old database survive force=True", "ids": sorted((new_ids - solo_ids) & old_ids)[:5]})
     finally:
-        for p in (dbfn, solo):
+        for p in (dbfn, solo, dbfn + "-wal", dbfn + "-shm", dbfn + "-journal"):
             if os.path.exists(p):
                 os.unlink(p)
 
@@ -218,7 +252,11 @@ def reads(ctx, case):
     text = annotation(case["seed"], case["fmt"])
     dbfn = ctx.tmp(".db")
     try:
-        gffutils.create_db(text, dbfn, from_string=True).conn.close()
+        kw = {}
+        if case["fmt"] == "gtf" and case.get("no_infer"):
+            kw = {"disable_infer_genes": True, "disable_infer_transcripts": True}
+            ctx.mon("GTF databases built without inference")
+        gffutils.create_db(text, dbfn, from_string=True, **kw).conn.close()
         before, h0 = dbdump.dump(dbfn), sha(dbfn)
         sqltrace.reset()
         db = gffutils.FeatureDB(dbfn, keep_order=case["seed"] % 2 == 0)
@@ -228,13 +266,25 @@ def reads(ctx, case):
             raise Inconclusive("gffutils' connection is not a traced connection")
         log0, auth0, tc0 = len(sqltrace.LOG), len(sqltrace.AUTH), db.conn.total_changes
         ids = [f["id"] for f in before["features"]]
+        # ids that occur in the relations table but are not features (dangling parents; GTF transcripts/genes when
+        # inference is off): look-ups of those are misses and must stay reads
+        only_related = sorted(set(r[0] for r in before["relations"]) - set(ids))
         rng = random.Random(case["seed"] * 31 + 7)
         used = set()
         per_method = {}
         for name in case["calls"]:
             l0, a0, t0 = len(sqltrace.LOG), len(sqltrace.AUTH), db.conn.total_changes
             try:
-                one_call(db, name, rng, ids, before["features"])
+                if name == "missing_key" and only_related and rng.random() < 0.7:
+                    k = rng.choice(only_related)
+                    ctx.mon("look-ups of ids known only as relation parents")
+                    for fn in (lambda: db[k], lambda: list(db.children(k)), lambda: db.bed12(k), lambda: db.children_bp(k)):
+                        try:
+                            fn()
+                        except Exception:
+                            pass
+                else:
+                    one_call(db, name, rng, ids, before["features"])
             except Exception as ex:
                 ctx.mon("read-style calls that raised (not judged): %s" % type(ex).__name__)
             ctx.mon("read-style calls made")
@@ -272,12 +322,19 @@ def run(ctx):
         case = {"kind": "pair", "old_seed": rng.randrange(10 ** 6), "new_seed": rng.randrange(10 ** 6),
                 "old_fmt": rng.choice(["gff3", "gtf"]), "new_fmt": rng.choice(["gff3", "gtf"]),
                 "disjoint": rng.random() < 0.5, "force": rng.random() < 0.7, "force_kw": rng.choice(["absent", "False"]),
-                "old_without_stats": rng.random() < 0.3}
+                "old_without_stats": rng.random() < 0.3, "old_in_wal_mode": rng.random() < 0.15}
         execute(ctx, case)
         ctx.case(("pair", case), case["disjoint"], sample=case, cls="pair force=%s" % case["force"])
+    # a database that another connection holds locked (each attempt waits for sqlite3's busy timeout, so only a few)
+    for _ in range(1 if ctx.tier == "quick" else 6):
+        case = {"kind": "pair", "old_seed": rng.randrange(10 ** 6), "new_seed": rng.randrange(10 ** 6), "old_fmt": "gff3",
+                "new_fmt": rng.choice(["gff3", "gtf"]), "disjoint": True, "force": False, "force_kw": "absent", "locked": True}
+        execute(ctx, case)
+        ctx.case(("pair-locked", case["old_seed"], case["new_seed"]), True, sample=case, cls="pair on a locked database")
     for _ in range(ctx.budget(480, 16000)):
         calls = [rng.choice(METHODS) for _ in range(40)]
-        case = {"kind": "reads", "seed": rng.randrange(10 ** 6), "fmt": rng.choice(["gff3", "gff3", "gtf"]), "calls": calls}
+        case = {"kind": "reads", "seed": rng.randrange(10 ** 6), "fmt": rng.choice(["gff3", "gff3", "gtf"]), "calls": calls,
+                "no_infer": rng.random() < 0.4}
         execute(ctx, case)
         ctx.case(("reads", case["seed"], case["fmt"], calls), len(set(calls)) >= 6, sample=case if rng.random() < 0.05 else None,
                  cls="read sequence on %s db" % case["fmt"])
